@@ -5,6 +5,8 @@ R-CHV2-DISABLED every walk over the per-key chord list that selects a chord filt
 R-CH1-GUARD    chords v1: every pass over the queued events in handle_chord / decompose applies the
                chord-window test (reads Queued.since together with Queued.event).
 """
+import re
+
 from kq.analysis import blocks_calling, fn_reads_fields
 from kq.core import Resolver, callee_name, const_val, is_const, is_place, norm_name, proj
 from kq.report import RuleResult
@@ -304,3 +306,53 @@ def rule_ch1_start(prog):
 
 def run_all(prog):
     return [rule_rel(prog), rule_disabled(prog), rule_ch1(prog), rule_ch1_twin(prog), rule_ch1_start(prog)]
+
+
+def rule_truncated(prog):
+    """R-CHV2-TRUNCATED (C09): a candidate list whose overflow is ignored is never treated as the complete list without
+    asking whether it is full.
+
+    process_presses narrows the chords of the starting key down into `chord_candidates`, a heapless Vec of 16, and
+    deliberately ignores a failing push ("If full, can't run the optimization above, but not fatal"). With more than 16
+    overlapping chords the list is a truncated prefix of the real candidates. That is only "not fatal" because the
+    exact-match lookup at timeout / release falls back to the full table when the list `is_full()`. Rule: in every
+    function of keyberon's chord.rs (with its closures) that discards the result of a push into a bounded list, the
+    function asks `is_full()` of a list of the same type and branches on the answer."""
+    from rules.r_errdrop import used_locals
+    res = RuleResult("R-CHV2-TRUNCATED", "a bounded list filled with overflow ignored is checked with is_full before it is relied on", floor=1)
+    n = 0
+    for f in prog.fns.values():
+        if f.crate != "kanata_keyberon" or f.derive or f.parent or "chord" not in f.file or "::test" in f.norm:
+            continue
+        lossy, full = {}, set()
+        for g in [f] + prog.closures_of(f):
+            used = None
+            for bi, t in g.calls():
+                cn = callee_name(t) or ""
+                short = cn.split("::")[-1]
+                if "heapless" not in cn or not t["args"] or not is_place(t["args"][0]):
+                    continue
+                ty = re.sub(r"^(&mut |&)+", "", g.local_ty(t["args"][0]["l"]) or "")
+                if short == "push":
+                    used = used if used is not None else used_locals(g)
+                    if t["dest"]["l"] not in used:
+                        lossy.setdefault(ty, (g, t))
+                elif short == "is_full":
+                    # the answer decides a branch
+                    nxt = t.get("t")
+                    if nxt is not None and g.term(nxt)["k"] == "switch":
+                        full.add(ty)
+        for ty, (g, t) in sorted(lossy.items()):
+            n += 1
+            ok = ty in full
+            key = "%s/%s" % (f.norm.split("::")[-1], ty.split("<")[1].split(",")[0].split("::")[-1].strip("&'_ <>T"))
+            res.fn(f)
+            res.inst(key, where="%s:%s" % (g.file, t.get("ln")), list_type=ty[:90], asks_is_full=ok, ok=ok)
+            res.oblige(ok)
+            if not ok:
+                res.viol(key, "%s:%s" % (g.file, t.get("ln")),
+                         "%s pushes into a bounded list (%s) and ignores a failing push, but never branches on is_full() of that "
+                         "list: with more entries than fit, the list is a truncated prefix, and a search in it that finds nothing "
+                         "concludes 'no chord matches' although the full table has one - a defined chord (a b) stops firing when more "
+                         "than 16 longer chords contain its keys" % (f.norm.split("::")[-1], ty[:80]))
+    return res
